@@ -118,6 +118,13 @@ func init() {
 			return w.viol("bulk.error", "iterating the source map failed: %v", err)
 		}
 		c := &MCont{CID: st.CID, IsMap: true, Type: *st.T, Owner: src.Owner, Dig: src.Dig, Seed: sm.Seed(), Volatile: src.Owner == 0}
+		if (st.Sub == "dup" || st.Sub == "swap") && len(stream) >= 2 {
+			// a faulty element stream (duplicated delivery / reordering of two neighbours), built into a scratch
+			// storage: the build may refuse it, but whatever it accepts must be a valid map
+			if v := w.faultyStreamBuild(st, c, sm.Seed(), len(stream), func(j int) (MVal, MVal) { return stream[j].k, stream[j].v }); v != nil {
+				return v
+			}
+		}
 		i := 0
 		m, err := atree.NewMapFromBatchData(w.Storage, OwnerAddress(src.Owner), w.digBuilder(c), *st.T, w.cmp, w.hip, sm.Seed(), func() (atree.Value, atree.Value, error) {
 			if i >= len(stream) {
@@ -297,7 +304,7 @@ func init() {
 			return Step{}, false
 		}
 		t := g.genType()
-		return Step{Op: "bulk.map", C: c.CID, CID: g.cid(), T: &t}, true
+		return Step{Op: "bulk.map", C: c.CID, CID: g.cid(), T: &t, Sub: []string{"", "", "dup", "dup", "swap"}[g.R.Intn(5)], Pos: g.R.U64() % 100000}, true
 	}
 	extraGens["copy"] = func(g *Gen) (Step, bool) {
 		c := g.pickTarget(false, true)
@@ -388,4 +395,85 @@ func (w *World) copyPredicate(c *MCont) (bool, string) {
 		return false, "its slab holds references (external collision group)"
 	}
 	return true, "it is a single slab holding only plain values"
+}
+
+// faultyStreamBuild feeds NewMapFromBatchData the source stream with one delivery fault and checks that the
+// outcome is a refusal or a valid map (never a map whose recorded count, enumeration and lookups disagree).
+func (w *World) faultyStreamBuild(st *Step, c *MCont, seed uint64, n int, at func(int) (MVal, MVal)) *Violation {
+	order := make([]int, 0, n+1)
+	p := int(st.Pos % uint64(n))
+	for j := 0; j < n; j++ {
+		order = append(order, j)
+	}
+	replayed := -1
+	if st.Sub == "dup" {
+		// element p is delivered again right after itself or at the end of the stream
+		if st.Pos%2 == 0 {
+			order = append(order[:p+1], append([]int{p}, order[p+1:]...)...)
+			replayed = p + 1
+		} else {
+			order = append(order, p)
+			replayed = n
+		}
+		w.Stats.Inc("fault.stream.duplicate")
+	} else {
+		q := (p + 1) % n
+		order[p], order[q] = order[q], order[p]
+		w.Stats.Inc("fault.stream.reorder")
+	}
+	scratch := w.newStorage(NewSimLedger(), w.Ctl)
+	i := 0
+	m, err := atree.NewMapFromBatchData(scratch, OwnerAddress(c.Owner), w.digBuilder(c), c.Type, w.cmp, w.hip, seed, func() (atree.Value, atree.Value, error) {
+		if i >= len(order) {
+			return nil, nil, nil
+		}
+		km, vm := at(order[i])
+		k := w.valueOfKey(km)
+		val, _ := scalarValueOf(vm)
+		if i == replayed {
+			val = U64(424242)
+		}
+		i++
+		return k, val, nil
+	})
+	if err != nil {
+		w.Stats.Inc("bulk.faulty-stream-refused")
+		return nil
+	}
+	w.Stats.Inc("bulk.faulty-stream-accepted")
+	got := 0
+	seen := map[string]bool{}
+	var bad string
+	if err := m.IterateReadOnly(func(k, v atree.Value) (bool, error) {
+		km, ok := modelOfScalar(k)
+		if !ok {
+			bad = "non-scalar key"
+			return false, nil
+		}
+		if seen[keyString(km)] {
+			bad = "key " + describe(km) + " enumerated twice"
+			return false, nil
+		}
+		seen[keyString(km)] = true
+		got++
+		return true, nil
+	}); err != nil {
+		return w.viol("bulk.faulty-stream", "a map built from a %s stream cannot be enumerated: %v", st.Sub, err)
+	}
+	if bad != "" {
+		return w.viol("bulk.faulty-stream", "a map built from a %s stream: %s", st.Sub, bad)
+	}
+	if m.Count() != uint64(got) {
+		return w.viol("bulk.faulty-stream", "a map built from a %s stream of %d deliveries was accepted with Count()=%d but enumerates %d entries", st.Sub, len(order), m.Count(), got)
+	}
+	for j := 0; j < n; j++ {
+		km, _ := at(j)
+		if _, err := m.Get(w.cmp, w.hip, w.valueOfKey(km)); err != nil {
+			return w.viol("bulk.faulty-stream", "a map built from a %s stream was accepted but Get(%s) fails: %v", st.Sub, describe(km), err)
+		}
+	}
+	if err := atree.VerifyMap(m, OwnerAddress(c.Owner), c.Type, typeInfoEqual, w.hip, true); err != nil {
+		return w.viol("bulk.faulty-stream", "a map built from a %s stream was accepted but is not structurally valid: %v", st.Sub, err)
+	}
+	return nil
 }
